@@ -23,10 +23,12 @@ def BranchField (s t : Stmt) : Prop :=
       ∃ d16, d16 < 65536 ∧ s.pkg.additional = branchValue false d16 ∧
         ((y : Int) - (x + s.pkg.size)) % 65536 = d16)
 
-/-- the stored PC-relative offset of statement `s` (index `i`) whose operand names statement `t` -/
+/-- the stored PC-relative offset of statement `s` (index `i`) whose operand names statement `t`: `fix_addresses`
+computes the value `v`, `fit_operand_width` renders it at the width of the field (`fitWidth_numeric`: a negative 8-bit
+offset as its two's complement byte) -/
 def PcrField (s t : Stmt) : Prop :=
   ∃ x y v, addrNat s = some x ∧ addrNat t = some y ∧
-    numericOfInt (pcrJump s y x) (some s.pcrHint) .none = .ok v ∧ s.pkg.additional = v ∧
+    numericOfInt (pcrJump s y x) (some s.pcrHint) .none = .ok v ∧ fitWidth (withAdditional s v) = .ok s ∧
     (s.pcrHint = 2 → -128 ≤ pcrJump s y x ∧ pcrJump s y x ≤ 127)
 
 /-- C03 at full strength: every branch of an accepted program whose operand is a label carries the
@@ -79,6 +81,33 @@ theorem C03_field {ss : List Stmt} {i b : Nat} {s : Stmt} (hk : s.operand.kind =
    fun h1 h2 h3 h4 => fixOne_long_backward hk hb h1 h2 h3 h4,
    fun h1 h2 h3 => fixOne_long_forward hk hb h1 h2 h3⟩
 
+/-! ### a branch to something that is not a label is rejected (former finding B3, repaired) -/
+
+/-- `translate` of a relative operand whose resolved value is not a label (a number, an expression) raises:
+the statement is never accepted -/
+theorem C03_branch_nonlabel_rejected {o : Operand} {row : Gen.InstrRow} (hk : o.kind = .relative)
+    (hv : o.value.isAddress = false) : ∀ p, translateOperand o row ≠ .ok p := by
+  intro p h
+  have := (translate_relative h hk).2.1
+  rw [hv] at this
+  cases this
+
+/-- `BRA 5` and `LBRA $1000` are diagnostics -/
+theorem C03_branch_number_diag (fs : Files) :
+    assemble fs ([" BRA 5\n"].map String.toList) = .diag ∧
+    assemble fs ([" LBRA $1000\n"].map String.toList) = .diag :=
+  ⟨diagProgram_sound (by decide +kernel) fs, diagProgram_sound (by decide +kernel) fs⟩
+
+/-- every relative statement of an accepted program names a label -/
+theorem C03_branch_is_label {fs : Files} {lines : List Str} {a : Assembly} (h : assemble fs lines = .ok a)
+    {i : Nat} {s : Stmt} (hs : a.stmts[i]? = some s) (hk : s.operand.kind = .relative) :
+    ∃ b m, s.operand.value = .address b m := by
+  obtain ⟨st⟩ := assemble_stages h
+  obtain ⟨_, _, _, _, _, _, _, _, haddr, _⟩ := st.branch_pre hs hk
+  cases hv : s.operand.value with
+  | address b m => exact ⟨b, m, rfl⟩
+  | _ => rw [hv] at haddr; cases haddr
+
 /-! ### the branch field of an accepted program -/
 
 /-- No ORG between the branch and its target (more precisely: none among the statements of index
@@ -92,18 +121,28 @@ theorem C03_branch {fs : Files} {lines : List Str} {a : Assembly} (h : assemble 
     (hsz : 0 < s.pkg.size) :
     BranchField s t := by
   obtain ⟨st⟩ := assemble_stages h
-  obtain ⟨s4, hs4, hfix, hsame, hadd⟩ := st.branch_pre hs hk
+  obtain ⟨s4, s1, hs4, hfix, hfit, _, hsame, hadd, _, hrowmem, hbr, hopc, hpb, hsz4⟩ := st.branch_pre hs hk
   obtain ⟨x, hx⟩ := (C02_chain h).1 i s hs
   obtain ⟨y, hy⟩ := (C02_chain h).1 b t ht
   have hc := st.chained
   have hk4 : s4.operand.kind = .relative := by obtain ⟨v, rfl⟩ := hsame; exact hk
   have hb4 : s4.pkg.additional.int? = some b := by
-    rw [hadd, hv]; simp [Value.isAddress, Value.int?]
+    rw [hadd, hv]; simp [Value.int?]
   have hrow : s.row = s4.row := by obtain ⟨v, rfl⟩ := hsame; rfl
   have hsize : s.pkg.size = s4.pkg.size := by obtain ⟨v, rfl⟩ := hsame; rfl
   have hsum : ∀ lo hi, sumSize st.ss4 lo hi = sumSize a.stmts lo hi := fun lo hi =>
     (sumSize_congr ((fixAll_pw st.hfix).mono (by rintro u u' ⟨_, rfl⟩; rfl)) lo hi).symm
   have hndiag : fixOne st.ss4 i s4 ≠ .diag := by rw [hfix]; simp
+  -- `fitWidth` leaves the field `fixOne` stored as it is
+  have key : ∀ d, d < 16 ^ (if s4.row.isShortBranch then 2 else 4) →
+      fixOne st.ss4 i s4 = .ok (withAdditional s4 (branchValue s4.row.isShortBranch d)) →
+      s.pkg.additional = branchValue s4.row.isShortBranch d := by
+    intro d hd h1
+    rw [hfix] at h1
+    cases h1
+    rw [branch_fit hrowmem hbr hopc hpb hsz4 hd] at hfit
+    cases hfit
+    rfl
   have hflag : ∀ j, min b i < j → j ≤ max b i → (st.ss3.map Stmt.preset)[j]? = some false := by
     intro j h1 h2
     have hlen : j < a.stmts.length := by
@@ -130,9 +169,9 @@ theorem C03_branch {fs : Files} {lines : List Str} {a : Assembly} (h : assemble 
         · exact absurd ((fixOne_relative_diag_iff hk4 hb4).mpr (Or.inl ⟨hshort4, by simp [hbi]; exact h'⟩)) hndiag
         · exact h'
       obtain ⟨h1, h2, h3⟩ := fixOne_short_backward hk4 hb4 hshort4 hbi hpos hle
-      rw [hfix] at h1
-      have hse : s = _ := Outcome.ok.inj h1
-      refine ⟨_, h2, by rw [hse]; rfl, ?_⟩
+      have hadd' := key _ (by rw [hshort4]; exact h2) (by rw [hshort4]; exact h1)
+      rw [hshort4] at hadd'
+      refine ⟨_, h2, hadd', ?_⟩
       rw [h3, hsum]; omega
     · -- forward
       have hib : i < b := by omega
@@ -142,10 +181,10 @@ theorem C03_branch {fs : Files} {lines : List Str} {a : Assembly} (h : assemble 
         · exact absurd ((fixOne_relative_diag_iff hk4 hb4).mpr (Or.inl ⟨hshort4, by simp [hbi]; exact h'⟩)) hndiag
         · exact h'
       obtain ⟨h1, h3⟩ := fixOne_short_forward hk4 hb4 hshort4 hbi hle
-      rw [hfix] at h1
-      have hse : s = _ := Outcome.ok.inj h1
       have hlt : sumSize st.ss4 (i + 1) b < 256 := by omega
-      refine ⟨_, hlt, by rw [hse]; rfl, ?_⟩
+      have hadd' := key _ (by rw [hshort4]; exact hlt) (by rw [hshort4]; exact h1)
+      rw [hshort4] at hadd'
+      refine ⟨_, hlt, hadd', ?_⟩
       rw [h3, hsum]; omega
   · intro hlong
     have hlong4 : s4.row.isShortBranch = false := by rw [← hrow]; exact hlong
@@ -157,9 +196,9 @@ theorem C03_branch {fs : Files} {lines : List Str} {a : Assembly} (h : assemble 
         · exact absurd ((fixOne_relative_diag_iff hk4 hb4).mpr (Or.inr (by simp [hbi]; exact h'))) hndiag
         · exact h'
       obtain ⟨h1, h2, _⟩ := fixOne_long_backward hk4 hb4 hlong4 hbi hpos hle
-      rw [hfix] at h1
-      have hse : s = _ := Outcome.ok.inj h1
-      refine ⟨_, h2, by rw [hse]; rfl, ?_⟩
+      have hadd' := key _ (by rw [hlong4]; exact h2) (by rw [hlong4]; exact h1)
+      rw [hlong4] at hadd'
+      refine ⟨_, h2, hadd', ?_⟩
       rw [hsum]; rw [hsum] at hpos hle; omega
     · have hib : i < b := by omega
       have hlink := hc.forward hib hs ht (fun j h1 h2 => hflag j (by rw [Nat.min_def]; split <;> omega) (by rw [Nat.max_def]; split <;> omega)) hx hy
@@ -168,10 +207,10 @@ theorem C03_branch {fs : Files} {lines : List Str} {a : Assembly} (h : assemble 
         · exact absurd ((fixOne_relative_diag_iff hk4 hb4).mpr (Or.inr (by simp [hbi]; exact h'))) hndiag
         · exact h'
       obtain ⟨h1, _⟩ := fixOne_long_forward hk4 hb4 hlong4 hbi hle
-      rw [hfix] at h1
-      have hse : s = _ := Outcome.ok.inj h1
       have hlt : sumSize st.ss4 (i + 1) b < 65536 := by omega
-      refine ⟨_, hlt, by rw [hse]; rfl, ?_⟩
+      have hadd' := key _ (by rw [hlong4]; exact hlt) (by rw [hlong4]; exact h1)
+      rw [hlong4] at hadd'
+      refine ⟨_, hlt, hadd', ?_⟩
       rw [hsum]; rw [hsum] at hle; omega
 
 /-- the branch field is what `get_binary_array` emits last for the statement: one byte for a short branch,
@@ -211,11 +250,11 @@ theorem C03_pcr {fs : Files} {lines : List Str} {a : Assembly} (h : assemble fs 
         s4.operand.value.isAddress = false → s4.operand.value ≠ .pyNone →
         s4.pkg.additional.isAddrExpr = false → s4.pkg.additional.int? = some t →
         ∃ u x y v, a.stmts[t]? = some u ∧ addrNat s = some x ∧ addrNat u = some y ∧
-          numericOfInt (pcrJump s y x) (some s.pcrHint) .none = .ok v ∧ s.pkg.additional = v := by
+          numericOfInt (pcrJump s y x) (some s.pcrHint) .none = .ok v ∧ fitWidth (withAdditional s v) = .ok s := by
   obtain ⟨st⟩ := assemble_stages h
   refine ⟨st.ss4, fixAll_pw st.hfix, ?_⟩
   intro i t s4 s hs4 hs hn hk hv1 hv2 hv3 he ht
-  obtain ⟨s', hs', hfix⟩ := (fixAll_ok st.hfix).2 i s4 hs4
+  obtain ⟨s1, s', hs', hfix, hfit⟩ := (fixAll_ok2 st.hfix).2 i s4 hs4
   rw [hs] at hs'; cases hs'
   rw [Nat.zero_add] at hfix
   obtain ⟨r, start, v, h1, h2, h3, h4⟩ := fixOne_pcr hk hv1 hv2 hv3 hn hfix
@@ -233,7 +272,12 @@ theorem C03_pcr {fs : Files} {lines : List Str} {a : Assembly} (h : assemble fs 
       rw [hs4] at h2
       obtain ⟨u, hu, w, rfl⟩ := (fixAll_pw st.hfix).get hu4
       subst h4
-      exact ⟨_, start, r, v, hu, h2, hat, h3, rfl⟩
+      obtain ⟨w', hw'⟩ := (fixAll_pw st.hfix).2 i s4 s hs4 hs
+      have hwa : withAdditional s v = withAdditional s4 v := by rw [hw']; rfl
+      have e1 : addrNat s = some start := by rw [hw']; exact h2
+      have e2 : pcrJump s r start = pcrJump s4 r start := by rw [hw']; rfl
+      have e3 : s.pcrHint = s4.pcrHint := by rw [hw']
+      exact ⟨_, start, r, v, hu, e1, hat, by rw [e2, e3]; exact h3, by rw [hwa]; exact hfit⟩
 
 /-! ### the full statement does not hold
 
@@ -291,7 +335,8 @@ theorem C03_Statement_false : ¬ C03_Statement := by
 (after fix 145359a) for distances that do not fit 16 bits;
 (2) in range, the stored field encodes the sum of sizes, as a sign-extended byte or modulo 65536;
 (3) for an accepted program without an ORG between branch and target, field + next instruction address =
-target address; (4) PCR statements store `target − address − size`.
+target address; (4) PCR statements store `target − address − size` (`fixOne`; `fitWidth` then renders the value at the
+width of the field).
 The width invariant (the 8-bit PCR form is only chosen for offsets in −128..127) is proved in
 `Props/C03Width.lean` (`C03_pcr8_width`, `C03_pcr_label`); five counterexamples met on the way were repaired in
 /repo (aafdc4b, 8dc2b21, 0293787, 95bb240, ec1693d). -/
